@@ -427,13 +427,18 @@ func reader_scan_trigDoc(r *Decoder, ectx evaluationContext, r0 cursorio.Decoded
 		r5, err := r.buf.NextRune()
 		if err != nil {
 			return readerStack{}, grammar.R_block.Err(r.newOffsetError(err, cursorio.DecodedRuneList{r0, r1, r2, r3, r4}.AsDecodedRunes(), cursorio.DecodedRunes{}))
+		} else if r5.Rune == '<' || r5.Rune == '[' || r5.Rune == '#' {
+			// the keyword needs no white space before an IRIREF, an anonymous blank node or a comment
+			r.buf.BacktrackRunes(r5)
+
+			r.commit(cursorio.DecodedRuneList{r0, r1, r2, r3, r4}.AsDecodedRunes())
 		} else if !unicode.IsSpace(r5.Rune) { // TODO IsRune_WS
 			r.buf.BacktrackRunes(r1, r2, r3, r4, r5)
 
 			return reader_scan_triplesOrGraph_labelOrSubject_PrefixedName(r, ectx, r0, nil)
+		} else {
+			r.commit(cursorio.DecodedRuneList{r0, r1, r2, r3, r4, r5}.AsDecodedRunes())
 		}
-
-		r.commit(cursorio.DecodedRuneList{r0, r1, r2, r3, r4, r5}.AsDecodedRunes())
 
 		return readerStack{
 			ectx,
